@@ -180,9 +180,9 @@ def main(tier):
     ok2 = "POST /zk2\n  Request any\n  201 any\n"
     okrpc = "URL /zkr\n  Protocol json-rpc-2.0\n  Method zm\n    Result\n    {}\n"
     kernels = {
-        "request_headers_not_object": ["TYPE @zlist\n[\n  1\n]\n", ok1, "PUT /zk3\n  Request\n    Headers @zlist\n    Body any\n  200 any\n", okrpc],
-        "response_headers_not_object": ["TYPE @zlist\n[\n  1\n]\n", ok1, ok2, "GET /zk3\n  200\n    Headers @zlist\n    Body any\n"],
-        "response_headers_scalar": [ok1, "TYPE @zs\n  \"str\"\n", "GET /zk3\n  200\n    Headers @zs\n    Body any\n", okrpc],
+        "request_headers_not_object": ["TYPE @zlist\n[\n  1\n]\n", ok1, "PUT /zk3\n  Request\n    Headers\n      @zlist\n    Body any\n  200 any\n", okrpc],
+        "response_headers_not_object": ["TYPE @zlist\n[\n  1\n]\n", ok1, ok2, "GET /zk3\n  200\n    Headers\n      @zlist\n    Body any\n"],
+        "response_headers_scalar": [ok1, "TYPE @zs\n  \"str\"\n", "GET /zk3\n  200\n    Headers\n      @zs\n    Body any\n", okrpc],
         "response_without_body": [ok1, ok2, "GET /zk3\n  200\n    Headers\n    {\n      \"h\": 1\n    }\n"],
         "undefined_type_in_late_method": [ok1, ok2, "GET /zk3\n  200 @znosuch\n", "TYPE @zused any\n"],
         "path_property_unused": [ok1, "GET /zk3/{a}\n  Path\n  {\n    \"a\": 1,\n    \"b\": 2\n  }\n  200 any\n", ok2],
